@@ -3,10 +3,12 @@
 import json, os, shutil, sys
 ID, X = sys.argv[1], sys.argv[2]
 caught = sys.argv[3] if len(sys.argv) > 3 else ""
-src = "/tmp/seed/out_%s/%s" % (ID, X)
-conf = json.load(open("/tmp/seed/confirm_%s_%s.json" % (ID, X)))
+ROOT = os.environ.get("SEEDROOT", "/tmp/seed")
+Y = os.environ.get("KEEP_AS", X)          # letter under which the change is kept (second round: A/B -> C/D)
+src = "%s/out_%s/%s" % (ROOT, ID, X)
+conf = json.load(open("%s/confirm_%s_%s.json" % (ROOT, ID, X)))
 assert conf["ok"], conf
-dst = "/verif/seeded/%s_%s" % (ID, X)
+dst = "/verif/seeded/%s_%s" % (ID, Y)
 os.makedirs(dst, exist_ok=True)
 shutil.copy(src + "/patch.diff", dst + "/patch.diff")
 shutil.copy(src + "/demo.py", dst + "/demo.py")
